@@ -281,6 +281,9 @@ def gen_case(rng, index, tier):
         case = dict(kind='system', spec=spec, ops=ops, faults={})
     if rng.random() < 0.5:
         case['faults'] = gen_faults(rng, ncalls_hint=rng.choice([3, 8, 20]))
+        if rng.random() < 0.3:
+            # a fault on the very first back-end call: the one a single direct solve makes
+            case['faults']['1'] = rng.choice([dict(kind='STAGNATE', how='zeros'), dict(kind='STAGNATE', how='input'), dict(kind='HUGE'), dict(kind='INEXACT', eps=1., rs=1), dict(kind='NONFINITE', val='nan', pos=0)])
     return case
 
 
